@@ -387,3 +387,60 @@ def dedup_summary(ctx, f, base):
     s["rid"] = ("path", ep)
     s["returns"] = "dedup"
     return s
+
+
+def _ti(opcode, operands, rid=None, rtype=None):
+    return ("struct", "Instruction", {"class": ("struct", "Instruction", {"opcode": ("enum", "Op::" + opcode, []), "opname": ("str", opcode)}),
+                                      "result_type": NONE if rtype is None else ("some", rtype), "result_id": NONE if rid is None else ("some", rid),
+                                      "operands": ("list", list(operands))})
+
+
+def type_identity_problems(ctx):
+    """Instruction::is_type_identical = same opcode and equal operand lists (ids and result types ignored);
+    Builder::dedup_insert_type = id of the first identical declaration in types_global_values that has a result id"""
+    out = []
+    A, B, C = (("enum", "Operand::IdRef", [("elem", "x", i)]) for i in range(3))
+    f = ctx.rspirv.fn("rspirv::dr::constructs", "is_type_identical", "Instruction", False)
+    other = [q[0] for q in f["sig"]["params"] if q[0] != "self"][0]
+    cases = [("same opcode, equal operands, different ids", _ti("TypeStruct", [A, B], 1), _ti("TypeStruct", [A, B], 2, 9), True),
+             ("same opcode, no operands", _ti("TypeVoid", []), _ti("TypeVoid", [], 5), True),
+             ("different opcode, equal operands", _ti("TypeStruct", [A, B]), _ti("TypeFunction", [A, B]), False),
+             ("last operand differs", _ti("TypeStruct", [A, B]), _ti("TypeStruct", [A, C]), False),
+             ("first operand differs", _ti("TypeStruct", [A, B]), _ti("TypeStruct", [C, B]), False),
+             ("other has one operand more", _ti("TypeStruct", [A]), _ti("TypeStruct", [A, B]), False),
+             ("other has one operand less", _ti("TypeStruct", [A, B]), _ti("TypeStruct", [A]), False),
+             ("one has no operands", _ti("TypeStruct", []), _ti("TypeStruct", [A]), False)]
+    for name, a, b, want in cases:
+        h = BH(ctx)
+        ev = progx.make(h, "Instruction::is_type_identical")
+        h.self_ty = "Instruction"
+        try:
+            r = ev.run(f, {"self": a, other: b})
+        except SPanic as x:
+            r = "panics: %s" % x
+        except Anchor as ex:
+            r = "not analysable: %s" % ex
+        out.append(("is_type_identical(%s)" % name, None if r is want else "yields %r, expected %s" % (r, want), ("is_type_identical", "Instruction")))
+    g = ctx.rspirv.fn(BLD, "dedup_insert_type", "Builder")
+    ip = [q[0] for q in g["sig"]["params"] if q[0] != "self"][0]
+    probe = _ti("TypeStruct", [A, B])
+    for name, tgv, want in (("an unrelated declaration, an identical one without id, then two identical ones with ids 20 and 30",
+                             [_ti("TypeStruct", [A, C], 10), _ti("TypeStruct", [A, B]), _ti("TypeStruct", [A, B], 20), _ti("TypeStruct", [A, B], 30)], ("some", 20)),
+                            ("only unrelated declarations and an identical one without id", [_ti("TypeStruct", [A], 10), _ti("TypeFunction", [A, B], 11), _ti("TypeStruct", [A, B])], NONE),
+                            ("no declarations", [], NONE)):
+        b = fresh_builder(ctx, "none")
+        b[2]["module"][2]["types_global_values"] = ("list", list(tgv))
+        before = repr(b)
+        h = BH(ctx)
+        ev = progx.make(h, "Builder::dedup_insert_type")
+        try:
+            r = ev.run(g, {"self": b, ip: probe})
+        except SPanic as x:
+            r = "panics: %s" % x
+        except Anchor as ex:
+            r = "not analysable: %s" % ex
+        pb = None if r == want else "yields %r, expected %r" % (r, want)
+        if pb is None and repr(b) != before:
+            pb = "changes the builder"
+        out.append(("dedup_insert_type(%s)" % name, pb, ("dedup_insert_type", "Builder")))
+    return out
